@@ -13,7 +13,11 @@ import (
 var TextAlphabet = []string{"a", `"`, `\`, "\n", "\t", "\b", "\f", "\r", "\x00", "\x1f", "\x7f", "<", "&", "é", " ", "😀", "\xff", "\xc0", "\xed\xa0\x80", "\xc3", "\x80", "\xf0\x9f\x98"}
 
 // Text classes used in windows.
-var TextClasses = []string{"v", "", `a"b\c`, "\n\x00\x1f", "é😀 ", "\xff\xc3", "<&\x7f"}
+var TextClasses = []string{"v", "", `a"b\c`, "\n\x00\x1f", "é😀 ", "\xff\xc3", "<&\x7f", EscapeLike}
+
+// EscapeLike is data that LOOKS like JSON escapes (literal backslashes): anything that post-processes
+// encoded text by search-and-replace instead of encoding properly corrupts it.
+const EscapeLike = `\u003c\u003e\u0026 \n \" \\u2028 \ud800`
 
 // KeyClasses used in windows.
 var KeyClasses = []string{"k", "", `q"\`, "\xff\n", "level", "message"}
@@ -137,7 +141,7 @@ func ClassValues(m string) []interface{} {
 		return []interface{}{[]time.Duration(nil), []time.Duration{}, []time.Duration{time.Millisecond + 1, -1}}
 	case "Interface", "Any":
 		var nilInt *int
-		return []interface{}{nil, 1, "s\"\xff", 1.5, plainStruct{1, "b\n", nil}, map[string]interface{}{"z": 1, "a": []int{1}}, make(chan int), ObjV{Fields: []Field{{M: "Str", Key: "in", Val: "o"}}}, json.RawMessage(`{"r":1}`), []int{1, 2}, nilInt, (*ObjP)(nil), math.NaN(), []byte("b"), "<& "}
+		return []interface{}{nil, 1, "s\"\xff", 1.5, plainStruct{1, EscapeLike, nil}, map[string]interface{}{"z": 1, "a": []int{1}}, make(chan int), ObjV{Fields: []Field{{M: "Str", Key: "in", Val: "o"}}}, json.RawMessage(`{"r":1}`), []int{1, 2}, nilInt, (*ObjP)(nil), math.NaN(), []byte("b"), "<& "}
 	case "Type":
 		// the type string of an anonymous struct carries its tags verbatim: quotes, backslashes, control bytes
 		return []interface{}{nil, 1, "s", ObjV{}, (*PErr)(nil), struct {
